@@ -770,7 +770,18 @@ impl Sink<Bytes> for Substream {
             }
         }
 
-        poll_flush!(&mut self.substream, cx).map_err(From::from)
+        let flushed = poll_flush!(&mut self.substream, cx).map_err(From::from);
+
+        // A frame the socket did not accept yet is still parked (the waker was registered by the
+        // pending `poll_write`): the flush is not complete until it has been written out.
+        if self.pending_out_frame.is_some() {
+            return match flushed {
+                Poll::Ready(Err(error)) => Poll::Ready(Err(error)),
+                _ => Poll::Pending,
+            };
+        }
+
+        flushed
     }
 
     fn poll_close(mut self: Pin<&mut Self>, cx: &mut Context<'_>) -> Poll<Result<(), Self::Error>> {
